@@ -32,40 +32,329 @@ def Hdr.Bounded (f : TreeFmt) (h : Hdr) : Prop :=
 def TreeImage.Bounded (f : TreeFmt) (img : TreeImage Int Nat) : Prop :=
   img.hdr.Bounded f ∧ ∀ r ∈ img.recs, r.Bounded f
 
+theorem leDec_leEnc_mod (w x : Nat) : leDec (leEnc w x) = x % 256 ^ w := by
+  induction w generalizing x with
+  | zero => simp [leEnc, leDec, Nat.mod_one]
+  | succ n ih =>
+    simp only [leEnc, leDec, ih]
+    have : (UInt8.ofNat (x % 256)).toNat = x % 256 := by
+      simp [UInt8.toNat_ofNat']
+    rw [this, Nat.pow_succ, Nat.mul_comm (256^n) 256, Nat.mod_mul]
+
 theorem leDec_leEnc' (w x : Nat) (h : x < 256 ^ w) : leDec (leEnc w x) = x := by
-  sorry
+  rw [leDec_leEnc_mod, Nat.mod_eq_of_lt h]
 
 theorem leEnc_length' (w x : Nat) : (leEnc w x).length = w := by
-  sorry
+  induction w generalizing x with
+  | zero => simp [leEnc]
+  | succ n ih => simp [leEnc, ih]
+
+theorem zeros_length (n : Nat) : (zeros n).length = n := by simp [zeros]
+
+theorem le_alignUp (x a : Nat) : x ≤ alignUp x a := by
+  unfold alignUp
+  split
+  · exact Nat.le_refl _
+  · rename_i h
+    have h1 : 0 < a := Nat.pos_of_ne_zero h
+    have h2 := @Nat.lt_div_mul_add (x + a - 1) a h1
+    omega
+
+/-- The middle block of a three-part concatenation. -/
+theorem slice_mid (a b c : Bytes) (off len : Nat) (h1 : off = a.length) (h2 : len = b.length) :
+    TreeFmt.slice (a ++ b ++ c) off len = b := by
+  subst h1 h2
+  unfold TreeFmt.slice
+  rw [List.append_assoc, List.drop_left' rfl, List.take_left' rfl]
+
+theorem leDecInt_leEncInt (n : Nat) (hn : 0 < n) (x : Int)
+    (h1 : -(2 ^ (8 * n - 1) : Int) ≤ x) (h2 : x < (2 ^ (8 * n - 1) : Int)) :
+    leDecInt (leEncInt n x) = x := by
+  have hM : (2 ^ (8 * n) : Nat) = 2 * 2 ^ (8 * n - 1) := by
+    have : 8 * n = (8 * n - 1) + 1 := by omega
+    conv => lhs; rw [this, Nat.pow_succ]
+    omega
+  have h256 : 256 ^ n = 2 ^ (8 * n) := by
+    rw [Nat.pow_mul]
+  generalize hH : (2 ^ (8 * n - 1) : Nat) = H at hM
+  have hH' : (2 ^ (8 * n - 1) : Int) = (H : Int) := by
+    rw [← hH]; simp
+  rw [hH'] at h1 h2
+  generalize hMM : (2 ^ (8 * n) : Nat) = M at hM h256
+  have hu : ((x % (M : Int)).toNat : Int) = x % (M : Int) := by
+    apply Int.toNat_of_nonneg
+    apply Int.emod_nonneg
+    omega
+  have hlt : x % (M : Int) < M := by
+    apply Int.emod_lt_of_pos
+    omega
+  unfold leDecInt leEncInt
+  simp only [leEnc_length', hMM, hH]
+  rw [leDec_leEnc', if_neg (by omega)]
+  · by_cases hx : 0 ≤ x
+    · have : x % (M : Int) = x := Int.emod_eq_of_lt hx (by omega)
+      rw [this] at hu ⊢
+      split <;> omega
+    · have : x % (M : Int) = x + M := by
+        rw [← Int.add_mul_emod_self_left x M 1, Int.mul_one]
+        exact Int.emod_eq_of_lt (by omega) (by omega)
+      rw [this] at hu ⊢
+      split <;> omega
+  · rw [h256]; omega
+
+theorem TreeFmt.keyOff_ge (f : TreeFmt) : 4 * f.iw ≤ f.keyOff := le_alignUp _ _
+theorem TreeFmt.valOff_ge (f : TreeFmt) : f.keyOff + f.key.size ≤ f.valOff := le_alignUp _ _
+theorem TreeFmt.recSize_ge (f : TreeFmt) : f.valOff + f.val.size ≤ f.recSize := le_alignUp _ _
+
+theorem TreeFmt.encKey_length (f : TreeFmt) (k : Int) : (f.encKey k).length = f.key.size := by
+  unfold TreeFmt.encKey leEncInt
+  split <;> simp [leEnc_length']
 
 theorem TreeFmt.encRec_length (f : TreeFmt) (hf : f.Ok) (r : Rec Int Nat) : (f.encRec r).length = f.recSize := by
-  sorry
+  have _ := hf
+  have h1 := f.keyOff_ge
+  have h2 := f.valOff_ge
+  have h3 := f.recSize_ge
+  simp only [TreeFmt.encRec, List.length_append, leEnc_length', zeros_length, TreeFmt.encKey_length]
+  omega
 
 theorem TreeFmt.recSize_pos (f : TreeFmt) (hf : f.Ok) : 0 < f.recSize := by
-  sorry
+  have h3 := f.recSize_ge
+  have := hf.val_pos
+  omega
+
+theorem TreeFmt.decKey_encKey (f : TreeFmt) (hf : f.Ok) (r : Rec Int Nat) (hr : r.Bounded f) :
+    f.decKey (f.encKey r.key) = r.key := by
+  have hk := hr.2.2.2.2.2
+  unfold TreeFmt.decKey TreeFmt.encKey
+  by_cases hs : f.key.signed = true
+  · rw [if_pos hs] at hk
+    rw [if_pos hs, if_pos hs]
+    exact leDecInt_leEncInt _ hf.key_pos _ hk.1 hk.2
+  · rw [if_neg hs] at hk
+    rw [if_neg hs, if_neg hs]
+    have h0 : (r.key.toNat : Int) = r.key := Int.toNat_of_nonneg hk.1
+    rw [leDec_leEnc', h0]
+    have := hk.2
+    rw [← h0] at this
+    have hc : ((256 ^ f.key.size : Nat) : Int) = (256 : Int) ^ f.key.size := Int.natCast_pow 256 _
+    rw [← hc] at this
+    exact Int.ofNat_lt.mp this
 
 theorem TreeFmt.decRec_encRec (f : TreeFmt) (hf : f.Ok) (r : Rec Int Nat) (hr : r.Bounded f) :
     f.decRec (f.encRec r) = r := by
-  sorry
+  have h1 := f.keyOff_ge
+  have h2 := f.valOff_ge
+  have h3 := f.recSize_ge
+  obtain ⟨b1, b2, b3, b4, b5, b6⟩ := hr
+  have hk := f.decKey_encKey hf r ⟨b1, b2, b3, b4, b5, b6⟩
+  cases r with
+  | mk l rr h p k v =>
+  simp only at b1 b2 b3 b4 b5 hk
+  simp only [TreeFmt.decRec, TreeFmt.encRec]
+  have e0 : TreeFmt.slice (leEnc f.iw l ++ leEnc f.iw rr ++ leEnc f.iw h ++ leEnc f.iw p ++
+      zeros (f.keyOff - 4 * f.iw) ++ f.encKey k ++ zeros (f.valOff - (f.keyOff + f.key.size)) ++
+      leEnc f.val.size v ++ zeros (f.recSize - (f.valOff + f.val.size))) (0 * f.iw) f.iw = leEnc f.iw l := by
+    have := slice_mid [] (leEnc f.iw l) (leEnc f.iw rr ++ leEnc f.iw h ++ leEnc f.iw p ++
+      zeros (f.keyOff - 4 * f.iw) ++ f.encKey k ++ zeros (f.valOff - (f.keyOff + f.key.size)) ++
+      leEnc f.val.size v ++ zeros (f.recSize - (f.valOff + f.val.size))) (0 * f.iw) f.iw
+      (by simp) (by simp [leEnc_length'])
+    simpa [List.append_assoc] using this
+  have e1 : TreeFmt.slice (leEnc f.iw l ++ leEnc f.iw rr ++ leEnc f.iw h ++ leEnc f.iw p ++
+      zeros (f.keyOff - 4 * f.iw) ++ f.encKey k ++ zeros (f.valOff - (f.keyOff + f.key.size)) ++
+      leEnc f.val.size v ++ zeros (f.recSize - (f.valOff + f.val.size))) (1 * f.iw) f.iw = leEnc f.iw rr := by
+    have := slice_mid (leEnc f.iw l) (leEnc f.iw rr) (leEnc f.iw h ++ leEnc f.iw p ++
+      zeros (f.keyOff - 4 * f.iw) ++ f.encKey k ++ zeros (f.valOff - (f.keyOff + f.key.size)) ++
+      leEnc f.val.size v ++ zeros (f.recSize - (f.valOff + f.val.size))) (1 * f.iw) f.iw
+      (by simp [leEnc_length']) (by simp [leEnc_length'])
+    simpa [List.append_assoc] using this
+  have e2 : TreeFmt.slice (leEnc f.iw l ++ leEnc f.iw rr ++ leEnc f.iw h ++ leEnc f.iw p ++
+      zeros (f.keyOff - 4 * f.iw) ++ f.encKey k ++ zeros (f.valOff - (f.keyOff + f.key.size)) ++
+      leEnc f.val.size v ++ zeros (f.recSize - (f.valOff + f.val.size))) (2 * f.iw) f.iw = leEnc f.iw h := by
+    have := slice_mid (leEnc f.iw l ++ leEnc f.iw rr) (leEnc f.iw h) (leEnc f.iw p ++
+      zeros (f.keyOff - 4 * f.iw) ++ f.encKey k ++ zeros (f.valOff - (f.keyOff + f.key.size)) ++
+      leEnc f.val.size v ++ zeros (f.recSize - (f.valOff + f.val.size))) (2 * f.iw) f.iw
+      (by simp [leEnc_length']; omega) (by simp [leEnc_length'])
+    simpa [List.append_assoc] using this
+  have e3 : TreeFmt.slice (leEnc f.iw l ++ leEnc f.iw rr ++ leEnc f.iw h ++ leEnc f.iw p ++
+      zeros (f.keyOff - 4 * f.iw) ++ f.encKey k ++ zeros (f.valOff - (f.keyOff + f.key.size)) ++
+      leEnc f.val.size v ++ zeros (f.recSize - (f.valOff + f.val.size))) (3 * f.iw) f.iw = leEnc f.iw p := by
+    have := slice_mid (leEnc f.iw l ++ leEnc f.iw rr ++ leEnc f.iw h) (leEnc f.iw p) (
+      zeros (f.keyOff - 4 * f.iw) ++ f.encKey k ++ zeros (f.valOff - (f.keyOff + f.key.size)) ++
+      leEnc f.val.size v ++ zeros (f.recSize - (f.valOff + f.val.size))) (3 * f.iw) f.iw
+      (by simp [leEnc_length']; omega) (by simp [leEnc_length'])
+    simpa [List.append_assoc] using this
+  have e4 : TreeFmt.slice (leEnc f.iw l ++ leEnc f.iw rr ++ leEnc f.iw h ++ leEnc f.iw p ++
+      zeros (f.keyOff - 4 * f.iw) ++ f.encKey k ++ zeros (f.valOff - (f.keyOff + f.key.size)) ++
+      leEnc f.val.size v ++ zeros (f.recSize - (f.valOff + f.val.size))) f.keyOff f.key.size = f.encKey k := by
+    have := slice_mid (leEnc f.iw l ++ leEnc f.iw rr ++ leEnc f.iw h ++ leEnc f.iw p ++
+      zeros (f.keyOff - 4 * f.iw)) (f.encKey k) (zeros (f.valOff - (f.keyOff + f.key.size)) ++
+      leEnc f.val.size v ++ zeros (f.recSize - (f.valOff + f.val.size))) f.keyOff f.key.size
+      (by simp [leEnc_length', zeros_length]; omega) (by simp [TreeFmt.encKey_length])
+    simpa [List.append_assoc] using this
+  have e5 : TreeFmt.slice (leEnc f.iw l ++ leEnc f.iw rr ++ leEnc f.iw h ++ leEnc f.iw p ++
+      zeros (f.keyOff - 4 * f.iw) ++ f.encKey k ++ zeros (f.valOff - (f.keyOff + f.key.size)) ++
+      leEnc f.val.size v ++ zeros (f.recSize - (f.valOff + f.val.size))) f.valOff f.val.size = leEnc f.val.size v := by
+    have := slice_mid (leEnc f.iw l ++ leEnc f.iw rr ++ leEnc f.iw h ++ leEnc f.iw p ++
+      zeros (f.keyOff - 4 * f.iw) ++ f.encKey k ++ zeros (f.valOff - (f.keyOff + f.key.size)))
+      (leEnc f.val.size v) (zeros (f.recSize - (f.valOff + f.val.size))) f.valOff f.val.size
+      (by simp [leEnc_length', zeros_length, TreeFmt.encKey_length]; omega) (by simp [leEnc_length'])
+    simpa [List.append_assoc] using this
+  rw [e0, e1, e2, e3, e4, e5, hk]
+  simp only [leDec_leEnc' _ _ b1, leDec_leEnc' _ _ b2, leDec_leEnc' _ _ b3, leDec_leEnc' _ _ b4,
+    leDec_leEnc' _ _ b5]
+
+theorem TreeFmt.encHdr_length (f : TreeFmt) (h : Hdr) : (f.encHdr h).length = f.hdrSize := by
+  simp only [TreeFmt.encHdr, TreeFmt.hdrSize, List.length_append, leEnc_length']
+  omega
 
 theorem TreeFmt.decHdr_encHdr (f : TreeFmt) (hf : f.Ok) (h : Hdr) (hh : h.Bounded f) :
     f.decHdr (f.encHdr h) = h := by
-  sorry
+  have _ := hf
+  obtain ⟨b1, b2, b3, b4, b5, b6⟩ := hh
+  cases h with
+  | mk r s c fl sq p =>
+  simp only at b1 b2 b3 b4 b5 b6
+  simp only [TreeFmt.decHdr, TreeFmt.encHdr]
+  have e0 : TreeFmt.slice (leEnc f.iw r ++ leEnc f.iw s ++ leEnc f.iw c ++ leEnc f.iw fl ++
+      leEnc f.iw sq ++ leEnc f.hdrPad p) (0 * f.iw) f.iw = leEnc f.iw r := by
+    have := slice_mid [] (leEnc f.iw r) (leEnc f.iw s ++ leEnc f.iw c ++ leEnc f.iw fl ++
+      leEnc f.iw sq ++ leEnc f.hdrPad p) (0 * f.iw) f.iw (by simp) (by simp [leEnc_length'])
+    simpa [List.append_assoc] using this
+  have e1 : TreeFmt.slice (leEnc f.iw r ++ leEnc f.iw s ++ leEnc f.iw c ++ leEnc f.iw fl ++
+      leEnc f.iw sq ++ leEnc f.hdrPad p) (1 * f.iw) f.iw = leEnc f.iw s := by
+    have := slice_mid (leEnc f.iw r) (leEnc f.iw s) (leEnc f.iw c ++ leEnc f.iw fl ++
+      leEnc f.iw sq ++ leEnc f.hdrPad p) (1 * f.iw) f.iw (by simp [leEnc_length']) (by simp [leEnc_length'])
+    simpa [List.append_assoc] using this
+  have e2 : TreeFmt.slice (leEnc f.iw r ++ leEnc f.iw s ++ leEnc f.iw c ++ leEnc f.iw fl ++
+      leEnc f.iw sq ++ leEnc f.hdrPad p) (2 * f.iw) f.iw = leEnc f.iw c := by
+    have := slice_mid (leEnc f.iw r ++ leEnc f.iw s) (leEnc f.iw c) (leEnc f.iw fl ++
+      leEnc f.iw sq ++ leEnc f.hdrPad p) (2 * f.iw) f.iw (by simp [leEnc_length']; omega) (by simp [leEnc_length'])
+    simpa [List.append_assoc] using this
+  have e3 : TreeFmt.slice (leEnc f.iw r ++ leEnc f.iw s ++ leEnc f.iw c ++ leEnc f.iw fl ++
+      leEnc f.iw sq ++ leEnc f.hdrPad p) (3 * f.iw) f.iw = leEnc f.iw fl := by
+    have := slice_mid (leEnc f.iw r ++ leEnc f.iw s ++ leEnc f.iw c) (leEnc f.iw fl) (
+      leEnc f.iw sq ++ leEnc f.hdrPad p) (3 * f.iw) f.iw (by simp [leEnc_length']; omega) (by simp [leEnc_length'])
+    simpa [List.append_assoc] using this
+  have e4 : TreeFmt.slice (leEnc f.iw r ++ leEnc f.iw s ++ leEnc f.iw c ++ leEnc f.iw fl ++
+      leEnc f.iw sq ++ leEnc f.hdrPad p) (4 * f.iw) f.iw = leEnc f.iw sq := by
+    have := slice_mid (leEnc f.iw r ++ leEnc f.iw s ++ leEnc f.iw c ++ leEnc f.iw fl) (leEnc f.iw sq) (
+      leEnc f.hdrPad p) (4 * f.iw) f.iw (by simp [leEnc_length']; omega) (by simp [leEnc_length'])
+    simpa [List.append_assoc] using this
+  have e5 : TreeFmt.slice (leEnc f.iw r ++ leEnc f.iw s ++ leEnc f.iw c ++ leEnc f.iw fl ++
+      leEnc f.iw sq ++ leEnc f.hdrPad p) (5 * f.iw) f.hdrPad = leEnc f.hdrPad p := by
+    have := slice_mid (leEnc f.iw r ++ leEnc f.iw s ++ leEnc f.iw c ++ leEnc f.iw fl ++ leEnc f.iw sq)
+      (leEnc f.hdrPad p) [] (5 * f.iw) f.hdrPad (by simp [leEnc_length']; omega) (by simp [leEnc_length'])
+    simpa [List.append_assoc] using this
+  rw [e0, e1, e2, e3, e4, e5]
+  simp only [leDec_leEnc' _ _ b1, leDec_leEnc' _ _ b2, leDec_leEnc' _ _ b3, leDec_leEnc' _ _ b4,
+    leDec_leEnc' _ _ b5, leDec_leEnc' _ _ b6]
+
+theorem flatMap_id_length (n : Nat) (blocks : List Bytes) (hb : ∀ b ∈ blocks, b.length = n) :
+    (blocks.flatMap id).length = blocks.length * n := by
+  induction blocks with
+  | nil => simp
+  | cons b bs ih =>
+    rw [List.flatMap_cons, List.length_append, ih (fun x hx => hb x (List.mem_cons_of_mem _ hx))]
+    simp only [id, List.length_cons, hb b List.mem_cons_self, Nat.succ_mul]
+    omega
+
+theorem flatMap_id_block (n : Nat) (blocks : List Bytes) (hb : ∀ b ∈ blocks, b.length = n)
+    (j : Nat) (hj : j < blocks.length) :
+    ((blocks.flatMap id).drop (j * n)).take n = blocks[j] := by
+  induction blocks generalizing j with
+  | nil => simp at hj
+  | cons b bs ih =>
+    have hbl : b.length = n := hb b List.mem_cons_self
+    rw [List.flatMap_cons]
+    simp only [id]
+    cases j with
+    | zero =>
+      simp only [Nat.zero_mul, List.drop_zero, List.getElem_cons_zero]
+      exact List.take_left' hbl
+    | succ j =>
+      have : (j + 1) * n = b.length + j * n := by rw [Nat.succ_mul, hbl]; omega
+      rw [this, ← List.drop_drop, List.drop_left' rfl]
+      simp only [List.getElem_cons_succ]
+      exact ih (fun x hx => hb x (List.mem_cons_of_mem _ hx)) j (by simpa using hj)
 
 /-- Splitting the concatenation of equally long blocks gives back the blocks. -/
 theorem TreeFmt.chunks_flatten (n : Nat) (hn : 0 < n) (blocks : List Bytes) (hb : ∀ b ∈ blocks, b.length = n) :
     TreeFmt.chunks n (blocks.flatMap id) = blocks := by
-  sorry
+  have hlen := flatMap_id_length n blocks hb
+  unfold TreeFmt.chunks
+  rw [if_neg (by omega)]
+  have hdiv : (blocks.flatMap id).length / n = blocks.length := by
+    rw [hlen]; exact Nat.mul_div_cancel _ hn
+  apply List.ext_getElem
+  · simp only [List.length_map, List.length_range, List.size_toArray, hdiv]
+  · intro j h1 h2
+    simp only [List.getElem_map, List.getElem_range, Array.toList_extract, List.extract_eq_take_drop]
+    have : j * n + n - j * n = n := by omega
+    rw [this]
+    exact flatMap_id_block n blocks hb j h2
+
+theorem TreeFmt.chunks_flatMap {α : Type} (n : Nat) (hn : 0 < n) (g : α → Bytes) (l : List α)
+    (hg : ∀ a ∈ l, (g a).length = n) :
+    TreeFmt.chunks n (l.flatMap g) = l.map g := by
+  have : l.flatMap g = (l.map g).flatMap id := by
+    rw [List.flatMap_map]; rfl
+  rw [this]
+  apply TreeFmt.chunks_flatten n hn
+  intro b hb
+  obtain ⟨a, ha, rfl⟩ := List.mem_map.mp hb
+  exact hg a ha
+
+theorem length_flatMap_const {α : Type} (n : Nat) (g : α → Bytes) (l : List α)
+    (hg : ∀ a ∈ l, (g a).length = n) : (l.flatMap g).length = l.length * n := by
+  have : l.flatMap g = (l.map g).flatMap id := by
+    rw [List.flatMap_map]; rfl
+  rw [this, flatMap_id_length n]
+  · simp
+  · intro b hb
+    obtain ⟨a, ha, rfl⟩ := List.mem_map.mp hb
+    exact hg a ha
 
 /-- Parsing the bytes of a bounded tree image gives back the image. -/
 theorem TreeFmt.ofBytes_toBytes (f : TreeFmt) (hf : f.Ok) (img : TreeImage Int Nat) (hb : img.Bounded f) :
     f.ofBytes (f.toBytes img) = some img := by
-  sorry
+  have hpos := f.recSize_pos hf
+  have hH := f.encHdr_length img.hdr
+  have hR := length_flatMap_const f.recSize f.encRec img.recs (fun r _ => f.encRec_length hf r)
+  have hlen : (f.toBytes img).length = f.hdrSize + img.recs.length * f.recSize := by
+    rw [TreeFmt.toBytes, List.length_append, hH, hR]
+  have htake : (f.toBytes img).take f.hdrSize = f.encHdr img.hdr := by
+    rw [TreeFmt.toBytes]; exact List.take_left' hH
+  have hdrop : (f.toBytes img).drop f.hdrSize = img.recs.flatMap f.encRec := by
+    rw [TreeFmt.toBytes]; exact List.drop_left' hH
+  have hrecs : (TreeFmt.chunks f.recSize (img.recs.flatMap f.encRec)).map f.decRec = img.recs := by
+    rw [TreeFmt.chunks_flatMap f.recSize hpos f.encRec img.recs (fun r _ => f.encRec_length hf r),
+      List.map_map]
+    conv => rhs; rw [← List.map_id img.recs]
+    apply List.map_congr_left
+    intro r hr
+    exact f.decRec_encRec hf r (hb.2 r hr)
+  unfold TreeFmt.ofBytes
+  rw [if_neg (by omega), if_neg (by omega), if_neg (by rw [hlen]; simp)]
+  simp only [htake, hdrop, hrecs, f.decHdr_encHdr hf img.hdr hb.1]
+  simp
 
 /-- …and parsing accepts nothing else: whatever `ofBytes` returns re-encodes to exactly the input bytes. -/
 theorem TreeFmt.toBytes_of_ofBytes (f : TreeFmt) (bs : Bytes) (img : TreeImage Int Nat)
     (h : f.ofBytes bs = some img) : f.toBytes img = bs := by
-  sorry
+  unfold TreeFmt.ofBytes at h
+  split at h
+  · simp at h
+  split at h
+  · simp at h
+  split at h
+  · simp at h
+  simp only at h
+  split at h
+  · rename_i heq
+    simp only [Option.some.injEq] at h
+    rw [← h]; exact heq
+  · simp at h
 
 /-! ### Hash set -/
 
@@ -75,19 +364,140 @@ def HImage.Bounded (f : HFmt) (img : HImage Nat) : Prop :=
   img.hdr.size < 256 ^ 4 ∧ img.hdr.cap < 256 ^ 4 ∧ img.hdr.flh < 256 ^ 4 ∧ img.hdr.seq < 256 ^ 4 ∧
   ∀ r ∈ img.recs, r.bucket < 256 ^ 4 ∧ r.next < 256 ^ 4 ∧ r.val < 256 ^ f.val.size
 
+theorem HFmt.valOff_ge (f : HFmt) : 8 ≤ f.valOff := le_alignUp _ _
+theorem HFmt.recSize_ge (f : HFmt) : f.valOff + f.val.size ≤ f.recSize := le_alignUp _ _
+
+theorem HFmt.encRec_length (f : HFmt) (r : HRec Nat) : (f.encRec r).length = f.recSize := by
+  have h1 := f.valOff_ge
+  have h2 := f.recSize_ge
+  simp only [HFmt.encRec, List.length_append, leEnc_length', zeros_length]
+  omega
+
+theorem HFmt.encHdr_length (f : HFmt) (h : HHdr) : (f.encHdr h).length = f.hdrSize := by
+  simp only [HFmt.encHdr, HFmt.hdrSize, List.length_append, leEnc_length']
+
+theorem HFmt.decRec_encRec (f : HFmt) (r : HRec Nat)
+    (hr : r.bucket < 256 ^ 4 ∧ r.next < 256 ^ 4 ∧ r.val < 256 ^ f.val.size) :
+    f.decRec (f.encRec r) = r := by
+  have h1 := f.valOff_ge
+  have h2 := f.recSize_ge
+  obtain ⟨b1, b2, b3⟩ := hr
+  cases r with
+  | mk b nx v =>
+  simp only at b1 b2 b3
+  simp only [HFmt.decRec, HFmt.encRec]
+  have e0 : TreeFmt.slice (leEnc 4 b ++ leEnc 4 nx ++ zeros (f.valOff - 8) ++ leEnc f.val.size v ++
+      zeros (f.recSize - (f.valOff + f.val.size))) 0 4 = leEnc 4 b := by
+    have := slice_mid [] (leEnc 4 b) (leEnc 4 nx ++ zeros (f.valOff - 8) ++ leEnc f.val.size v ++
+      zeros (f.recSize - (f.valOff + f.val.size))) 0 4 (by simp) (by simp [leEnc_length'])
+    simpa [List.append_assoc] using this
+  have e1 : TreeFmt.slice (leEnc 4 b ++ leEnc 4 nx ++ zeros (f.valOff - 8) ++ leEnc f.val.size v ++
+      zeros (f.recSize - (f.valOff + f.val.size))) 4 4 = leEnc 4 nx := by
+    have := slice_mid (leEnc 4 b) (leEnc 4 nx) (zeros (f.valOff - 8) ++ leEnc f.val.size v ++
+      zeros (f.recSize - (f.valOff + f.val.size))) 4 4 (by simp [leEnc_length']) (by simp [leEnc_length'])
+    simpa [List.append_assoc] using this
+  have e2 : TreeFmt.slice (leEnc 4 b ++ leEnc 4 nx ++ zeros (f.valOff - 8) ++ leEnc f.val.size v ++
+      zeros (f.recSize - (f.valOff + f.val.size))) f.valOff f.val.size = leEnc f.val.size v := by
+    have := slice_mid (leEnc 4 b ++ leEnc 4 nx ++ zeros (f.valOff - 8)) (leEnc f.val.size v) (
+      zeros (f.recSize - (f.valOff + f.val.size))) f.valOff f.val.size
+      (by simp [leEnc_length', zeros_length]; omega) (by simp [leEnc_length'])
+    simpa [List.append_assoc] using this
+  rw [e0, e1, e2]
+  simp only [leDec_leEnc' _ _ b1, leDec_leEnc' _ _ b2, leDec_leEnc' _ _ b3]
+
+theorem HFmt.decHdr_encHdr (f : HFmt) (h : HHdr)
+    (hh : h.size < 256 ^ 4 ∧ h.cap < 256 ^ 4 ∧ h.flh < 256 ^ 4 ∧ h.seq < 256 ^ 4) :
+    f.decHdr (f.encHdr h) = h := by
+  obtain ⟨b1, b2, b3, b4⟩ := hh
+  cases h with
+  | mk s c fl sq =>
+  simp only at b1 b2 b3 b4
+  simp only [HFmt.decHdr, HFmt.encHdr]
+  have e0 : TreeFmt.slice (leEnc 4 s ++ leEnc 4 c ++ leEnc 4 fl ++ leEnc 4 sq) (0 * 4) 4 = leEnc 4 s := by
+    have := slice_mid [] (leEnc 4 s) (leEnc 4 c ++ leEnc 4 fl ++ leEnc 4 sq) (0 * 4) 4
+      (by simp) (by simp [leEnc_length'])
+    simpa [List.append_assoc] using this
+  have e1 : TreeFmt.slice (leEnc 4 s ++ leEnc 4 c ++ leEnc 4 fl ++ leEnc 4 sq) (1 * 4) 4 = leEnc 4 c := by
+    have := slice_mid (leEnc 4 s) (leEnc 4 c) (leEnc 4 fl ++ leEnc 4 sq) (1 * 4) 4
+      (by simp [leEnc_length']) (by simp [leEnc_length'])
+    simpa [List.append_assoc] using this
+  have e2 : TreeFmt.slice (leEnc 4 s ++ leEnc 4 c ++ leEnc 4 fl ++ leEnc 4 sq) (2 * 4) 4 = leEnc 4 fl := by
+    have := slice_mid (leEnc 4 s ++ leEnc 4 c) (leEnc 4 fl) (leEnc 4 sq) (2 * 4) 4
+      (by simp [leEnc_length']) (by simp [leEnc_length'])
+    simpa [List.append_assoc] using this
+  have e3 : TreeFmt.slice (leEnc 4 s ++ leEnc 4 c ++ leEnc 4 fl ++ leEnc 4 sq) (3 * 4) 4 = leEnc 4 sq := by
+    have := slice_mid (leEnc 4 s ++ leEnc 4 c ++ leEnc 4 fl) (leEnc 4 sq) [] (3 * 4) 4
+      (by simp [leEnc_length']) (by simp [leEnc_length'])
+    simpa [List.append_assoc] using this
+  rw [e0, e1, e2, e3]
+  simp only [leDec_leEnc' _ _ b1, leDec_leEnc' _ _ b2, leDec_leEnc' _ _ b3, leDec_leEnc' _ _ b4]
+
 theorem HFmt.ofBytes_toBytes (f : HFmt) (hf : f.Ok) (img : HImage Nat) (hb : img.Bounded f) :
     f.ofBytes (f.toBytes img) = some img := by
-  sorry
+  have hpos : 0 < f.recSize := by
+    have := f.recSize_ge
+    have := hf.1
+    omega
+  obtain ⟨c1, c2, c3, c4, hrb⟩ := hb
+  have hH := f.encHdr_length img.hdr
+  have hR := length_flatMap_const f.recSize f.encRec img.recs (fun r _ => f.encRec_length r)
+  have hlen : (f.toBytes img).length = f.hdrSize + img.recs.length * f.recSize := by
+    rw [HFmt.toBytes, List.length_append, hH, hR]
+  have htake : (f.toBytes img).take f.hdrSize = f.encHdr img.hdr := by
+    rw [HFmt.toBytes]; exact List.take_left' hH
+  have hdrop : (f.toBytes img).drop f.hdrSize = img.recs.flatMap f.encRec := by
+    rw [HFmt.toBytes]; exact List.drop_left' hH
+  have hrecs : (TreeFmt.chunks f.recSize (img.recs.flatMap f.encRec)).map f.decRec = img.recs := by
+    rw [TreeFmt.chunks_flatMap f.recSize hpos f.encRec img.recs (fun r _ => f.encRec_length r),
+      List.map_map]
+    conv => rhs; rw [← List.map_id img.recs]
+    apply List.map_congr_left
+    intro r hr
+    exact f.decRec_encRec r (hrb r hr)
+  unfold HFmt.ofBytes
+  rw [if_neg (by omega), if_neg (by omega), if_neg (by rw [hlen]; simp)]
+  simp only [htake, hdrop, hrecs, f.decHdr_encHdr img.hdr ⟨c1, c2, c3, c4⟩]
+  simp
 
 theorem HFmt.toBytes_of_ofBytes (f : HFmt) (bs : Bytes) (img : HImage Nat)
     (h : f.ofBytes bs = some img) : f.toBytes img = bs := by
-  sorry
+  unfold HFmt.ofBytes at h
+  split at h
+  · simp at h
+  split at h
+  · simp at h
+  split at h
+  · simp at h
+  simp only at h
+  split at h
+  · rename_i heq
+    simp only [Option.some.injEq] at h
+    rw [← h]; exact heq
+  · simp at h
 
 /-! ### Array sets -/
 
 theorem AFmt.ofBytes_toBytes (f : AFmt) (hp : 0 < f.pw) (hv : 0 < f.vsz) (s : ASet Nat)
     (hl : s.len < 256 ^ f.pw) (hvals : ∀ v ∈ s.vals, v < 256 ^ f.vsz) :
     f.ofBytes (f.toBytes s) = some s := by
-  sorry
+  have _ := hp
+  have hH : (leEnc f.pw s.len).length = f.pw := leEnc_length' _ _
+  have hR := length_flatMap_const f.vsz (leEnc f.vsz) s.vals (fun v _ => leEnc_length' _ v)
+  have hlen : (f.toBytes s).length = f.pw + s.vals.length * f.vsz := by
+    rw [AFmt.toBytes, List.length_append, hH, hR]
+  have htake : (f.toBytes s).take f.pw = leEnc f.pw s.len := by
+    rw [AFmt.toBytes]; exact List.take_left' hH
+  have hdrop : (f.toBytes s).drop f.pw = s.vals.flatMap (leEnc f.vsz) := by
+    rw [AFmt.toBytes]; exact List.drop_left' hH
+  have hrecs : (TreeFmt.chunks f.vsz (s.vals.flatMap (leEnc f.vsz))).map leDec = s.vals := by
+    rw [TreeFmt.chunks_flatMap f.vsz hv (leEnc f.vsz) s.vals (fun v _ => leEnc_length' _ v),
+      List.map_map]
+    conv => rhs; rw [← List.map_id s.vals]
+    apply List.map_congr_left
+    intro v hv'
+    exact leDec_leEnc' _ _ (hvals v hv')
+  unfold AFmt.ofBytes
+  rw [if_neg (by omega), if_neg (by omega), if_neg (by rw [hlen]; simp)]
+  simp only [htake, hdrop, hrecs, leDec_leEnc' _ _ hl]
 
 end Stevia
